@@ -47,7 +47,7 @@ EPOCH_COLS = {
 FLOAT_TABLES = {'rising_interval', 'recession_interval', 'rising_interval_zeta', 'recession_interval_zeta'}
 ZONES = ['UTC', 'Etc/GMT+5', 'Etc/GMT-7', 'Etc/GMT-12', 'Asia/Kolkata', 'Asia/Kathmandu', 'Africa/Lagos', 'Etc/GMT+11']
 ORIGINS = ['1969-12-31 18:00:00', '1955-05-05 00:00:00', '1971-02-03 00:00:00', '1996-06-01 12:00:00', '2013-07-07 06:00:00', '2021-03-01 00:00:00',
-           '2037-11-30 18:00:00', '2004-02-29 00:00:00']
+           '2037-11-30 18:00:00', '2004-02-29 00:00:00', '2041-03-01 00:00:00', '2106-02-06 12:00:00']
 
 
 def gen_tie_record(rng):
